@@ -45,16 +45,16 @@ CLAIMS = {
    note="panic messages and reflect's behaviour are not decided",
    tech="static analysis: who-may-construct census, dominance of guard edges on cut-point paths, interval analysis, taint of reflect .Elem() results"),
  "C03": dict(cat="other", ref="DESIGN.md section 4, C03",
-   text="Canonical field loop, exactly one append per iteration with the descent after it, consecutive IDs, descent condition, PureType, FieldKey, first-match lookups with exact matching, names order, positional FMap/NewN/FMapN, true offsets (shared with C01). The listing as a whole follows on paper by induction; reflect's field order is trusted.",
+   text="Canonical field loop, exactly one append per iteration with the descent after it, consecutive IDs, descent condition, PureType, FieldKey, first-match lookups with exact matching, names order, positional FMap/NewN/FMapN, true offsets (shared with C01). The listing as a whole follows on paper by induction; reflect's field order is trusted. listing-immutable: no function of hseq stores into, sorts or copies onto a listing it was given.",
    note="assumes no struct embeds a pointer to itself (no cycle guard in the code; outside what the property can mean)",
    tech="static analysis: counted-loop recognition, loop-carried value provenance, path constraints on SSA terms"),
 
  "C05": dict(cat="other", ref="DESIGN.md section 4, C05",
-   text="Per-iteration event constraints of every sequential stage, decided on all cut-point paths of the single stage goroutine (Map/FMap/Filter/TakeWhile/Take/Partition/Fold/ForEach/Void/Seq/ToSeq), Take's budget by interval analysis, Fold's accumulator provenance, one goroutine per stage, outputs closed on every exit; the wrappers built by Lift/Pure/LiftF/Try/TryF apply the user's function exactly once per call and return its result unchanged, Pure's closure analysed as re-entrant (its own captured state unknown on entry); Map / FMap enter the error hand-off exactly when the function reported an error. The list-image claim for every capacity and interleaving follows on paper from single goroutine + FIFO + exactly-once-per-iteration; schedules are not enumerated.",
+   text="Per-iteration event constraints of every sequential stage, decided on all cut-point paths of the single stage goroutine (Map/FMap/Filter/TakeWhile/Take/Partition/Fold/ForEach/Void/Seq/ToSeq), Take's budget by interval analysis, Fold's accumulator provenance, one goroutine per stage, outputs closed on every exit; the wrappers built by Lift/Pure/LiftF/Try/TryF apply the user's function exactly once per call and return its result unchanged, Pure's closure analysed as re-entrant (its own captured state unknown on entry); Map / FMap enter the error hand-off exactly when the function reported an error. The list-image claim for every capacity and interleaving follows on paper from single goroutine + FIFO + exactly-once-per-iteration; schedules are not enumerated. ctor-leaves-inputs: the stage function itself performs no receive on its input channels.",
    note="assumes user functions terminate and do not touch the channels; Take's n >= 0; trusted: go/ssa, path engine, Go channel FIFO. Not decided: nothing is observed at run time.",
    tech="static analysis: cut-point path enumeration over SSA with event lists, branch polarities and infeasible-path pruning; interval analysis"),
  "C06": dict(cat="other", ref="DESIGN.md section 4, C06",
-   text="Pairing/typestate/ownership: single closer and exactly one close on every exit after the last send (or after wg.Wait with Done-after-last-send and Add = spawn count), every blocking operation classified (range over input, select with the stage's ctx.Done arm that exits, capacity-accounted send, wg.Wait), every loop cycle has a cancellation point and an exit, catch's false edge exits, no panic source, nothing delivered after an observed cancel (1 known finding: pipe.Fold). Termination/closure for every interleaving follows on paper. spawn-channels: no goroutine is started, on any path of its parent, with a channel variable it operates on still nil.",
+   text="Pairing/typestate/ownership: single closer and exactly one close on every exit after the last send (or after wg.Wait with Done-after-last-send and Add = spawn count), every blocking operation classified (range over input, select with the stage's ctx.Done arm that exits, capacity-accounted send, wg.Wait), every loop cycle has a cancellation point and an exit, catch's false edge exits, no panic source, nothing delivered after an observed cancel (1 known finding: pipe.Fold). Termination/closure for every interleaving follows on paper. spawn-channels: no goroutine is started, on any path of its parent, with a channel variable it operates on still nil. ctor-leaves-inputs: the stage function itself performs no receive on its input channels.",
    note="assumes inputs are eventually closed and user functions return; pipe.New is covered by C08; goroutine dumps are not taken",
    tech="static analysis: typestate/ownership rules over cut-point paths of every spawned goroutine (SSA), closed-world summaries of the catch role"),
  "C07": dict(cat="other", ref="DESIGN.md section 4, C07",
@@ -74,11 +74,11 @@ CLAIMS = {
    note="assumes time.Sleep(d) returns no earlier than d",
    tech="static analysis: loop-carried value stepping and must-pass-through over cut-point paths"),
  "C12": dict(cat="other", ref="DESIGN.md section 4, C12",
-   text="Join: one copier per range element with wg.Add(len(in)) before the spawns, copier forwards each received element exactly once with a cancellable send, single closer after wg.Wait, Done after last send. Arrival orders are not decided.",
+   text="Join: one copier per range element with wg.Add(len(in)) before the spawns, copier forwards each received element exactly once with a cancellable send, single closer after wg.Wait, Done after last send. Arrival orders are not decided. ctor-leaves-inputs: the stage function itself performs no receive on its input channels.",
    note="trusted: go/ssa, path engine, range-loop recognition",
    tech="static analysis: counted-loop/range recognition + path constraints + WaitGroup ordering"),
  "C13": dict(cat="other", ref="DESIGN.md section 4, C13",
-   text="ONLY the structure of the token scheme: cap(ctl)=ops, ops cancellable token sends per cycle, exactly one time.After(interval) wait per cycle, one token then one cancellable send per element in order, outputs closed. The rate bound and every timing statement of the property are NOT decided (they quantify over a clock).",
+   text="ONLY the structure of the token scheme: cap(ctl)=ops, ops cancellable token sends per cycle, exactly one time.After(interval) wait per cycle, one token then one cancellable send per element in order, outputs closed. The rate bound and every timing statement of the property are NOT decided (they quantify over a clock). ctor-leaves-inputs: the stage function itself performs no receive on its input channels.",
    note="rate not decided; assumes time.After(d) fires no earlier than d",
    tech="static analysis: counted-loop trip counts, must-pass-through, path constraints"),
 
